@@ -119,8 +119,19 @@ def run_thorough(prop, module, ctx, repo):
                 if os.path.exists(mp) and json.load(open(mp)).get("property") == prop:
                     r = selftest.run_patch(prop, os.path.join(sd, d, "patch.diff"))
                     seeds.append({"seed": d, "status": r["status"], "rules": sorted({l.strip().split()[1] for l in r["output"] if l.strip().startswith("rule ")})})
+            # (c) negative self-test: the behaviour-preserving refactorings written for this property must NOT be reported
+            refs = []
+            rd = os.path.join(VERIF, "refactors", prop)
+            for f in sorted(os.listdir(rd)) if os.path.isdir(rd) else []:
+                if f.endswith(".diff"):
+                    r = selftest.run_patch(prop, os.path.join(rd, f))
+                    refs.append({"refactor": "%s/%s" % (prop, f), "status": "SILENT" if r["status"] == "MISSED" else ("FALSE-ALARM" if r["status"] == "CAUGHT" else r["status"]),
+                                 "rules": sorted({l.strip().split()[1] for l in r["output"] if l.strip().startswith("rule ")})})
         finally:
             os.environ.pop("VERIF_NESTED", None)
+        for r in refs:
+            if r["status"] != "SILENT":
+                print("SELFTEST-FALSE-ALARM property=%s refactor=%s (%s %s)" % (prop, r["refactor"], r["status"], r["rules"]))
         for r in res:
             if r["status"] not in ("CAUGHT", "CAUGHT-OTHER-RULE"):
                 print("%s property=%s mutant=%s %s" % (r["status"], prop, r["mutant"], r.get("why", "")))
@@ -128,7 +139,7 @@ def run_thorough(prop, module, ctx, repo):
             if r["status"] != "CAUGHT":
                 print("SELFTEST-MISS property=%s seed=%s (%s)" % (prop, r["seed"], r["status"]))
         out["selftest"] = {"mutants": [{"mutant": r["mutant"], "status": r["status"], "rules": r.get("rules", []), "what": r.get("what", "")} for r in res],
-                           "seeded": seeds, "caught": sum(1 for r in res if r["status"].startswith("CAUGHT")) + sum(1 for r in seeds if r["status"] == "CAUGHT"),
+                           "seeded": seeds, "refactors_silent": refs, "caught": sum(1 for r in res if r["status"].startswith("CAUGHT")) + sum(1 for r in seeds if r["status"] == "CAUGHT"),
                            "total": len(res) + len(seeds), "wall_s": round(time.time() - t0, 1)}
     return out
 
